@@ -128,6 +128,9 @@ def run(rep, ctx, tier):
             b = f.find1(m, self_adt=adt, trait=PC)
             if b is not None:
                 R5.check_row(rep, ctx, "R5", "%s.%s" % (sk, m), b, adt, ["EquationHasDegreeBounds"], req)
+                R5.check_abort(rep, ctx, "R5a", "%s.%s" % (sk, m), b, adt,
+                               [("STATE", ("FIELD", "data_structures::LinearCombination", "terms"), t_) for t_ in T.SCALARS],
+                               "a term's coefficient")
     # verifier side
     missing = []
     anchors = {a.key: a for a in ctx.verifier_anchors(missing)}
